@@ -68,4 +68,65 @@ theorem observe_live_eq_reload {W : World} {ver : Nat} {s : State} {seen : List 
   · exact hck.2.2.2
   · exact h.2.2
 
+/-! ## a ReceiveBlob that fails on the store leaves the mirrors exact -/
+
+theorem receiveFault_failed (W : World) (s : State) (b : Ref) (f : Fault)
+    (h : (s.receiveFault W b f).2 = false) :
+    (s.receiveFault W b f).1 = s ∨ ∃ t, (s.receiveFault W b f).1 = s.noteNeeded b t := by
+  unfold State.receiveFault at h ⊢
+  split
+  · exact Or.inl rfl
+  · rename_i hidx
+    simp only [hidx, if_false] at h
+    simp only
+    split
+    · rename_i m hm
+      simp only [hm] at h
+      split
+      · exact Or.inl rfl
+      · rename_i hf; simp [hf] at h
+    · rename_i hm
+      simp only [hm] at h
+      split
+      · rename_i t ht
+        simp only [ht] at h
+        split
+        · rename_i hmt
+          simp only [hmt] at h
+          cases f with
+          | set => exact Or.inl rfl
+          | commit => exact Or.inr ⟨t, rfl⟩
+          | delete => simp at h
+        · rename_i tt hmt
+          simp only [hmt] at h
+          cases f with
+          | commit => exact Or.inl rfl
+          | set => simp at h
+          | delete => simp at h
+      · rename_i ht
+        simp only [ht] at h
+        cases f with
+        | commit => exact Or.inl rfl
+        | set => simp at h
+        | delete => simp at h
+
+/-- live = reload needs only the mirrors and the sortedness of the rows -/
+theorem observe_of_mirrors (s : State) (hk : KAsc s.rows) (hc : CorpusOk s) (hd : DelOk s) (c : Corpus)
+    (hcs : s.corpus = some c) (univ pns : List Ref) (fuel : Nat) :
+    s.observe univ pns fuel = some (observeReload s.rows univ pns fuel) := by
+  unfold State.observe observeReload
+  rw [hcs]
+  simp only [Option.map_some]
+  congr 1
+  have hck := hc c hcs
+  exact observe_congr univ pns fuel _ _ c _ (COk_m_eq s.rows hk c hck) hck.1 hck.2.2.2 hd
+
+theorem mirrors_noteNeeded (s : State) (hk : KAsc s.rows) (hc : CorpusOk s) (hd : DelOk s) (b t : Ref) :
+    KAsc (s.noteNeeded b t).rows ∧ CorpusOk (s.noteNeeded b t) ∧ DelOk (s.noteNeeded b t) := by
+  have hsame : ∀ k, isMissingKey k = false → SMap.get (s.noteNeeded b t).rows k = SMap.get s.rows k :=
+    fun k hk => ins_missing_get_other _ _ _ _ hk
+  refine ⟨kasc_ins _ _ hk, fun c hcc => COk_congr _ _ c hsame (hc c hcc), fun d => ?_⟩
+  show d ∈ s.deletes ↔ _
+  rw [hd, delsOfRows_congr _ _ hsame]
+
 end Pk.Index
